@@ -125,9 +125,34 @@ def feasible_candidate(rng, cfg):
   return [[x * (u + 1) for u in range(cfg["units"])] for x in col]
 
 
+def fixed_cfgs():
+  """Configurations that particular seeded changes needed in order to manifest (seeded/C08-m1..m5); generated on every
+  run so that detection does not depend on the seed."""
+  def cfg(sizes, **kw):
+    r = len(sizes)
+    c = dict(sizes=sizes, units=1, monos=[0] * r, edge=[], trap=[], uni=[0] * r, mdom=[], rdom=[], jmono=[], juni=[],
+             omin=None, omax=None, fam="fixed")
+    c.update(kw)
+    return c
+  return [
+      cfg([2, 3], monos=[1, 0], edge=[[0, 1, 1]]),                      # Edgeworth: main size 2, conditional size 3
+      cfg([3, 2], monos=[1, 0], edge=[[0, 1, -1]]),                     # ... and the other way round
+      cfg([2, 4], monos=[1, 0], edge=[[0, 1, 1]], units=2),
+      cfg([4], uni=[1]), cfg([4, 2], uni=[-1, 0]), cfg([6], uni=[-1]),  # unimodal dimensions of even size
+      cfg([3, 3], monos=[1, 0], uni=[0, -1]), cfg([3, 3], uni=[1, -1]),  # per-dimension flags whose sum cancels
+      cfg([3, 3], juni=[[[0], "valley"], [[1], "peak"]]),               # two joint-unimodality groups of equal arity
+      cfg([3, 3], juni=[[[0], "peak"], [[1], "peak"]]),
+      cfg([3, 3, 3], juni=[[[0, 1], "valley"], [[2, 0], "peak"]]),
+  ]
+
+
 def gen_descs(ctx):
   rng = ctx.rng
   out = []
+  for cfg in fixed_cfgs():
+    for klass, iters in (("random", 2), ("far", 1)):
+      out.append(dict(kind="dyk", cfg=cfg, kclass=klass, w=latgen.gen_kernel(rng, cfg, klass), iters=iters))
+    out.append(dict(kind="converge", cfg=cfg, w=latgen.gen_kernel(rng, cfg, "random"), iters=300))
   for _ in range(ctx.n(150, 3000)):
     cfg = single_family_cfg(rng)
     klass = rng.choice(["random", "random", "far", "ties", "constant", "feasible", "feasible", "feasible_rich",
@@ -143,7 +168,7 @@ def gen_descs(ctx):
       w = feasible_candidate(rng, cfg) if klass == "feasible" else latgen.gen_kernel(rng, cfg, klass)
     out.append(dict(kind="dyk", cfg=cfg, kclass=klass, w=w, iters=rng.choice([0, 1, 1, 2, 3, 6])))
   for d in pwl.gen_descs(ctx)[:ctx.n(60, 1500)]:
-    if d["kind"] == "proj":
+    if d["kind"] == "proj" and not d.get("cyclic"):
       d = dict(d, kind="pwl", via_layer=False)
       d.pop("dtype", None)     # float64, direct constraint object (the float32 / layer routes belong to C04)
       out.append(d)
